@@ -704,9 +704,13 @@ func (sc *Scope) call(e *SExpr) *sv {
 			if !sc.revealed("mulOverflows") {
 				return boolVal(apT)
 			}
+			defI := Term{SBool, fmt.Sprintf("(>= (* %s %s) %s)", a.L[0].T, b.L[0].T, pow2(w).String())}
+			if ft.inQuant > 0 {
+				return boolVal(defI) // under a binder: use the definition directly
+			}
 			ap := ft.c.Fresh("mulovf", SBool)
 			ft.c.Assume(ap, mkEq(ap, apT))
-			ft.c.Assume(ap, mkEq(ap, Term{SBool, fmt.Sprintf("(>= (* %s %s) %s)", a.L[0].T, b.L[0].T, pow2(w).String())}))
+			ft.c.Assume(ap, mkEq(ap, defI))
 			return boolVal(ap)
 		}
 		za := Term{SBV(2 * w), fmt.Sprintf("((_ zero_extend %d) %s)", w, a.L[0].T)}
@@ -727,6 +731,9 @@ func (sc *Scope) call(e *SExpr) *sv {
 			maxv := app(SBV(w), "bvnot", bvInt(w, 0))
 			def := mkAnd(mkNot(mkEq(b.L[0], bvInt(w, 0))), app(SBool, "bvugt", a.L[0], app(SBV(w), "bvudiv", maxv, b.L[0])))
 			ft.e.trust("mulOverflows(a,b) is defined as b != 0 && a > MAX/b; equivalence with the double-width product is solver-checked at 8/16 bits only")
+			if ft.inQuant > 0 {
+				return boolVal(def)
+			}
 			ap := ft.c.Fresh("mulovf", SBool)
 			ft.c.Assume(ap, mkEq(ap, app(SBool, fn, a.L[0], b.L[0])))
 			ft.c.Assume(ap, mkEq(ap, def))
@@ -745,6 +752,13 @@ func (sc *Scope) call(e *SExpr) *sv {
 		}
 		arr := mkSelect(ft.memGet(sc.mem, "FILE", fileCompSort()), ref)
 		return &sv{v: &Val{T: types.Typ[types.String], L: []Term{arr, idxInt(0), idxInt(maxLen)}}}
+	case "sameArray":
+		// sameArray(s, t): the two slices share their backing array
+		a, b := sc.eval(e.Args[0]).v, sc.eval(e.Args[1]).v
+		if a == nil || b == nil || !isSlice(a.T) || !isSlice(b.T) {
+			return sc.fail("sameArray expects two slices")
+		}
+		return boolVal(mkEq(a.L[0], b.L[0]))
 	case "off0":
 		// off0(s): the slice view starts at index 0 of its backing array (true of every slice obtained from make/append)
 		x := sc.eval(e.Args[0]).v
@@ -851,8 +865,12 @@ func (sc *Scope) call(e *SExpr) *sv {
 			if !sc.revealed(name) {
 				return &sv{v: &Val{T: rt, L: []Term{apTerm}}}
 			}
-			ap := ft.c.Fresh("ap_"+name, rs)
-			ft.c.Assume(ap, mkEq(ap, apTerm))
+			inq := ft.inQuant > 0
+			var ap Term
+			if !inq {
+				ap = ft.c.Fresh("ap_"+name, rs)
+				ft.c.Assume(ap, mkEq(ap, apTerm))
+			}
 			n := sc.child()
 			n.depth = sc.depth + 1
 			n.vars = map[string]*sv{}
@@ -867,6 +885,12 @@ func (sc *Scope) call(e *SExpr) *sv {
 			rv := r.v
 			if r.c != nil {
 				rv = sc.typed(r, rt)
+			}
+			if inq {
+				if rv != nil && len(rv.L) == 1 && rv.L[0].S == rs {
+					return &sv{v: &Val{T: rt, L: []Term{rv.L[0]}}} // under a binder: the revealed definition itself
+				}
+				return &sv{v: &Val{T: rt, L: []Term{apTerm}}}
 			}
 			if rv != nil && len(rv.L) == 1 && rv.L[0].S == rs {
 				ft.c.Assume(ap, mkEq(ap, rv.L[0]))
